@@ -88,12 +88,28 @@ func (x *vfE2C) dial() (net.Conn, *bufio.Reader) {
 }
 
 func vfE2ReadFrame(rd *bufio.Reader) (int32, []byte, error) {
-	var hdr [8]byte
-	if _, err := io.ReadFull(rd, hdr[:]); err != nil {
+	// Peek does not consume: a read deadline that expires in the middle of a frame (callers poll with short
+	// deadlines) loses nothing and the next call starts at the same frame boundary. (Seen once under load 58:
+	// a timeout inside the 8-byte header desynchronised the stream and the next "size" made make() panic.)
+	hdr, err := rd.Peek(8)
+	if err != nil {
 		return 0, nil, err
 	}
 	sz := int32(binary.BigEndian.Uint32(hdr[:4]))
-	typ := int32(binary.BigEndian.Uint32(hdr[4:]))
+	typ := int32(binary.BigEndian.Uint32(hdr[4:8]))
+	if sz < 4 || sz > 1<<26 {
+		return 0, nil, fmt.Errorf("frame size %d out of range (stream desynchronised?)", sz)
+	}
+	if 4+int(sz) <= rd.Size() {
+		all, err := rd.Peek(4 + int(sz))
+		if err != nil {
+			return 0, nil, err
+		}
+		data := append([]byte(nil), all[8:]...)
+		rd.Discard(4 + int(sz))
+		return typ, data, nil
+	}
+	rd.Discard(8)
 	data := make([]byte, sz-4)
 	if _, err := io.ReadFull(rd, data); err != nil {
 		return 0, nil, err
